@@ -2,4 +2,4 @@ CONSTANTS Names = {"default", "v0", "legacy"}
           Caps = {2, 3, 4}
           Data = {0, 97}
 SPECIFICATION Spec
-INVARIANTS Sound Safety
+INVARIANTS Sound Safety MonRunSame
